@@ -260,3 +260,109 @@ def enumerate_torn() -> Dict:
     if res["verdict"] != "rejected":
         failures.append({"id": "missing file", "verdict": res["verdict"], "how": res["how"], "key": "E3 missing file -> %s" % res["how"], "entry_point": "read_contracts_from_file"})
     return {"cases": n, "how": how, "failures": failures}
+
+
+def enumerate_oddities() -> Dict:
+    """Well-kinded but semantically odd records: they may be accepted or rejected, but only through documented classes."""
+    from pacti.contracts import PolyhedralIoContract  # noqa: WPS433
+    from pacti.utils import fileio  # noqa: WPS433
+    from pacti.utils.errors import ContractFormatError, PolyhedralSyntaxConvexException, PolyhedralSyntaxException  # noqa: WPS433
+
+    s = sm.Seams()
+    s.install()
+    fs = s.fs
+    failures: List[Dict] = []
+    n = 0
+    outcomes: Dict[str, int] = {}
+
+    def run(label: str, doc: Any, direct: Any = None) -> None:
+        nonlocal n
+        import contextlib  # noqa: WPS433
+        import io  # noqa: WPS433
+
+        calls = [("read_contracts_from_file", lambda: fileio.read_contracts_from_file("odd.json"))]
+        if direct is not None:
+            calls.append(("from_dict", lambda: PolyhedralIoContract.from_dict(copy.deepcopy(direct))))
+        fs.files["odd.json"] = json.dumps(doc, indent=2)
+        for ep, fn in calls:
+            n += 1
+            try:
+                with contextlib.redirect_stdout(io.StringIO()):
+                    fn()
+                how = "accepted"
+            except (ContractFormatError, PolyhedralSyntaxException, PolyhedralSyntaxConvexException) as e:
+                how = type(e).__name__
+            except ValueError as e:
+                how = type(e).__name__ if type(e).__module__ in ("builtins", "json.decoder") or type(e).__module__.startswith("pacti.") else "ESCAPE:" + type(e).__module__ + "." + type(e).__name__
+            except HarnessError:
+                raise
+            except Exception as e:  # noqa: WPS429
+                how = "ESCAPE:" + type(e).__module__ + "." + type(e).__name__
+            outcomes[how] = outcomes.get(how, 0) + 1
+            if how.startswith("ESCAPE"):
+                failures.append({"id": "odd %s via %s" % (label, ep), "entry_point": ep, "verdict": "escape", "how": how[7:], "file_text": fs.files["odd.json"],
+                                 "corrupted_entry": doc[0] if isinstance(doc, list) and doc else None, "key": "E3 odd-record %s via %s -> %s" % (label, ep, how[7:])})
+
+    for cname, contract in base_contracts()[:4]:
+        for machine in (True, False):
+            fileio.write_contracts_to_file([contract], [cname], "base.json", machine_representation=machine)
+            entry = json.loads(fs.files["base.json"])[0]
+            data = entry["data"]
+            variants = []
+            ins, outs = data["input_vars"], data["output_vars"]
+            if ins:
+                variants.append(("dup_input", {"input_vars": ins + [ins[0]]}))
+            if outs:
+                variants.append(("dup_output", {"output_vars": outs + [outs[0]]}))
+                variants.append(("in_and_out", {"input_vars": ins + [outs[0]]}))
+            variants.append(("no_inputs", {"input_vars": []}))
+            variants.append(("no_outputs", {"output_vars": []}))
+            variants.append(("no_interface", {"input_vars": [], "output_vars": []}))
+            variants.append(("no_guarantees", {"guarantees": []}))
+            variants.append(("empty_name_var", {"input_vars": ins + [""]}))
+            variants.append(("spacey_var", {"input_vars": ins + ["a b"]}))
+            if machine:
+                for which in ("assumptions", "guarantees"):
+                    for j, cl in enumerate(data[which]):
+                        for lab, mod in (("zero_coeff", 0.0), ("huge_coeff", 1e308), ("tiny_coeff", 5e-324), ("negzero_coeff", -0.0)):
+                            c2 = copy.deepcopy(data[which])
+                            if c2[j]["coefficients"]:
+                                k0 = sorted(c2[j]["coefficients"])[0]
+                                c2[j]["coefficients"][k0] = mod
+                                variants.append(("%s_%s%d" % (lab, which, j), {which: c2}))
+                        c3 = copy.deepcopy(data[which])
+                        c3[j]["coefficients"]["zz_undeclared"] = 1.0
+                        variants.append(("undeclared_%s%d" % (which, j), {which: c3}))
+                        c4 = copy.deepcopy(data[which])
+                        c4[j]["coefficients"] = {}
+                        variants.append(("no_coefficients_%s%d" % (which, j), {which: c4}))
+                        c5 = copy.deepcopy(data[which])
+                        c5[j]["constant"] = 1e308
+                        variants.append(("huge_constant_%s%d" % (which, j), {which: c5}))
+            else:
+                for which in ("assumptions", "guarantees"):
+                    variants.append(("empty_string_%s" % which, {which: data[which] + [""]}))
+                    variants.append(("nonconvex_%s" % which, {which: data[which] + ["-|%s| <= 1" % (ins + outs)[0]]}))
+                    variants.append(("undeclared_%s" % which, {which: data[which] + ["zz_undeclared <= 1"]}))
+                    variants.append(("constant_only_%s" % which, {which: data[which] + ["1 <= 2"]}))
+            for lab, patch in variants:
+                d2 = copy.deepcopy(data)
+                d2.update(copy.deepcopy(patch))
+                e2 = dict(entry)
+                e2["data"] = d2
+                run("%s/%s %s" % (entry["type"], cname, lab), [e2], d2 if machine else None)
+            e3 = dict(entry)
+            e3["type"] = "NoSuchContractType"
+            run("%s/%s unknown_type" % (entry["type"], cname), [e3])
+            e4 = dict(entry)
+            e4["extra_key"] = 1
+            run("%s/%s extra_entry_key" % (entry["type"], cname), [e4])
+            if machine:
+                # (string form: an unknown key in "data" reaches from_strings(**data) and fails with TypeError; an EXTRA
+                # field is neither a missing field nor a field of the wrong kind, so the property does not cover it — see DESIGN §9)
+                e5 = copy.deepcopy(entry)
+                e5["data"]["extra_key"] = []
+                run("%s/%s extra_data_key" % (entry["type"], cname), [e5], e5["data"])
+            run("%s/%s duplicated_entry" % (entry["type"], cname), [entry, entry])
+    run("empty file list", [])
+    return {"cases": n, "outcomes": outcomes, "failures": failures}
